@@ -1084,13 +1084,21 @@ impl<'p> Exec<'p> {
         let db = self.db();
         let tmp = match bad_tmpdir {
             Some("missing") => self.tmpdir.join("does-not-exist"),
-            Some("file") => {
+            Some("file") | Some("env_file") => {
                 let p = self.tmpdir.parent().unwrap().join("a-file");
                 let _ = std::fs::write(&p, b"x");
                 p
             }
+            Some("env_missing") => self.tmpdir.join("does-not-exist"),
             _ => self.tmpdir.clone(),
         };
+        // "env_*": the default temp directory (TMPDIR) is unusable for the duration of the build; the
+        // variable is only changed here, at a quiescent point of the run's only application thread
+        let env_mode = matches!(bad_tmpdir, Some("env_missing") | Some("env_file"));
+        let saved_tmpdir = std::env::var_os("TMPDIR");
+        if env_mode {
+            std::env::set_var("TMPDIR", &tmp);
+        }
         let wrc = if bad_tmpdir.is_none() { Some(self.writer_rc(ix)) } else { None };
         let wtxn = self.wtxn.as_mut().unwrap();
         let b2 = bctx.clone();
@@ -1100,7 +1108,7 @@ impl<'p> Exec<'p> {
             let w: &Writer<D> = match &wrc {
                 Some(rc) => rc.downcast_ref::<Writer<D>>().expect("writer type"),
                 None => {
-                    fresh = writer::<D>(db, im.index, im.dim, &tmp, true);
+                    fresh = writer::<D>(db, im.index, im.dim, &tmp, !env_mode);
                     &fresh
                 }
             };
@@ -1121,6 +1129,12 @@ impl<'p> Exec<'p> {
                 b.build(wtxn)
             }))
         });
+        if env_mode {
+            match saved_tmpdir {
+                Some(v) => std::env::set_var("TMPDIR", v),
+                None => std::env::remove_var("TMPDIR"),
+            }
+        }
         self.last_build_polls = bctx.polls.load(Ordering::SeqCst);
         self.out.stats.polls += self.last_build_polls;
         self.last_build_steps = bctx.steps_seen.lock().unwrap().clone();
